@@ -128,7 +128,7 @@ theorem ownedBy_eraseIdx (g : Geom) : ∀ (held : List Blk) (idx : Nat) (b : Blk
     (in particular no free of a held block fails). -/
 theorem runCmds_safe {g : Geom} (okg : GeomOk g) (cmds : List BCmd) :
     ∀ (held : List Blk), HeldOk g held →
-      SafeR (fun held' own' => own' = ownedBy g held' ∧ HeldOk g held') (ownedBy g held) (runCmds g cmds held) := by
+      SafeR (fun _ => True) (fun held' own' => own' = ownedBy g held' ∧ HeldOk g held') (ownedBy g held) (runCmds g cmds held) := by
   induction cmds with
   | nil => intro held hok; exact ⟨rfl, hok⟩
   | cons cmd rest ih =>
@@ -138,7 +138,7 @@ theorem runCmds_safe {g : Geom} (okg : GeomOk g) (cmds : List BCmd) :
       unfold runCmds
       by_cases hb : b.ok g
       · rw [if_pos hb]
-        apply SafeR.bind _ _ _ (toggle_alloc_safe okg (ownedBy g held) b.h b.i b.order hb.1 hb.2)
+        apply SafeR.bind _ _ _ (toggle_alloc_safe _ okg (ownedBy g held) b.h b.i b.order hb.1 hb.2 (fun _ _ => trivial))
         intro r o hr
         cases r with
         | ok u =>
@@ -154,7 +154,7 @@ theorem runCmds_safe {g : Geom} (okg : GeomOk g) (cmds : List BCmd) :
       unfold runCmds
       by_cases ho : order ≤ g.hugeOrder
       · rw [if_pos ho]
-        apply SafeR.bind _ _ _ (setFirstZeros_safe okg (ownedBy g held) h startRow order ho)
+        apply SafeR.bind _ _ _ (setFirstZeros_safe _ okg (ownedBy g held) h startRow order ho (fun _ _ _ _ => trivial))
         intro r o hr
         cases r with
         | ok off =>
@@ -182,8 +182,8 @@ theorem runCmds_safe {g : Geom} (okg : GeomOk g) (cmds : List BCmd) :
         simp only
         have hbm : b ∈ held := List.mem_of_getElem? hg
         have hbok := hok.mem b hbm
-        apply SafeR.bind _ _ _ (toggle_free_safe okg (ownedBy g held) b.h b.i b.order hbok.1 hbok.2
-          (fun f hf => ownedBy_of_mem g held b hbm f hf))
+        apply SafeR.bind _ _ _ (toggle_free_safe _ okg (ownedBy g held) b.h b.i b.order hbok.1 hbok.2
+          (fun f hf => ownedBy_of_mem g held b hbm f hf) (fun _ _ => trivial))
         intro r o hr
         cases r with
         | ok u =>
@@ -204,7 +204,7 @@ theorem bitfield_threads_safe {g : Geom} (okg : GeomOk g) (cmds : Nat → List B
         | .done held => owns' k = ownedBy g held ∧ HeldOk g held
         | .dead s => s = oobMsg
         | .step _ _ _ => True := by
-  have inv0 : ConcInv (fun held own' => own' = ownedBy g held ∧ HeldOk g held) m
+  have inv0 : ConcInv (fun _ => True) (fun held own' => own' = ownedBy g held ∧ HeldOk g held) m
       (fun k => Th.at (runCmds g (cmds k) [])) (fun _ => ownedBy g []) := by
     refine ⟨fun k => runCmds_safe okg (cmds k) [] trivial, ?_, ?_⟩
     · intro j k _ f hf; simp [ownedBy] at hf
